@@ -2,6 +2,7 @@ import runner
 import uper_streams
 from checks.uper_common import ASSUMPTIONS, TRUSTED
 from checks import c20
+import proto_streams
 
 
 class DerHostile(c20.DerStream):
@@ -20,6 +21,6 @@ class DerHostile(c20.DerStream):
 
 class Spec(runner.Spec):
     prop = "C04"
-    streams = [uper_streams.Hostile(), DerHostile()]
-    assumptions = ASSUMPTIONS + ["the protobuf reader is covered by the check of C17 (stream proto-hostile) once its model is integrated"]
+    streams = [uper_streams.Hostile(), DerHostile(), proto_streams.ProtoHostile()]
+    assumptions = ASSUMPTIONS + ["protobuf reader: theorem Props.C17.proto_reader_total_fixed applies to the reader variant selected by the translator flag PROTO_READER_CHECKED (true since the fix: commits ff0cfec, 11b3503, b49d2ea)"]
     trusted_base = TRUSTED
